@@ -45,6 +45,7 @@
 #endif
 
 #include "archive.h"
+#include "archive_private.h"
 
 struct write_FILE_data {
 	FILE		*f;
@@ -59,6 +60,8 @@ archive_write_open_FILE(struct archive *a, FILE *f)
 {
 	struct write_FILE_data *mine;
 
+	archive_check_magic(a, ARCHIVE_WRITE_MAGIC, ARCHIVE_STATE_NEW,
+	    "archive_write_open_FILE");
 	mine = malloc(sizeof(*mine));
 	if (mine == NULL) {
 		archive_set_error(a, ENOMEM, "No memory");
